@@ -21,9 +21,9 @@ GEN = "DataGen.tla"
 
 # name -> (cfg, workers, timeout)
 QUICK_BFS = [("gen_q", 8, 900), ("life_q", 4, 600), ("lifer_q", 2, 600), ("ab_q", 4, 600), ("kinds_q", 2, 600)]
-THOROUGH_BFS = [("gen_t23", 16, 3000), ("gen_t3", 16, 3000), ("gen_t4", 16, 3000), ("life_t", 16, 3000),
-                ("flat_t", 8, 3000)]
-THOROUGH_MC = [("alg_t", 16, 3000)]
+THOROUGH_BFS = [("gen_t23", 8, 5000), ("gen_t3", 8, 5000), ("gen_t4", 8, 5000), ("life_t", 8, 5000),
+                ("lifer_t", 4, 5000), ("flat_t", 4, 5000)]
+THOROUGH_MC = [("alg_t", 8, 5000)]
 
 # spec mutants: (Mut, base cfg, invariants that may refute it)
 MUTANTS = [("sub_from", "mut_q"), ("concat_swap", "mut_q"), ("apply_off", "mut_q"), ("cr_off", "mut_q"),
@@ -101,7 +101,7 @@ def run_bfs(v, g, name, workers, timeout):
     out = os.path.join(rundir(PROP), "beh_%s.txt" % name)
     if os.path.exists(out):
         os.remove(out)
-    r = tlc_must_pass(name, GEN, "Data_%s.cfg" % name, workers=workers, timeout=timeout, heap="6g",
+    r = tlc_must_pass(name, GEN, "Data_%s.cfg" % name, workers=workers, timeout=timeout, heap="4g",
                       env={"C13_OUT": out}, metaname="c13_%s_%d" % (name, os.getpid()))
     with g.lock:
         v.add_model("Data_%s.cfg" % name, r)
@@ -115,7 +115,7 @@ def run_bfs(v, g, name, workers, timeout):
 
 
 def run_mc(v, g, name, workers, timeout):
-    r = tlc_must_pass(name, GEN, "Data_%s.cfg" % name, workers=workers, timeout=timeout, heap="8g",
+    r = tlc_must_pass(name, GEN, "Data_%s.cfg" % name, workers=workers, timeout=timeout, heap="6g",
                       metaname="c13_%s_%d" % (name, os.getpid()))
     with g.lock:
         v.add_model("Data_%s.cfg" % name, r)
@@ -291,13 +291,13 @@ def run(tier, seed):
     ]
     g = Gen()
     drv = build_driver("drv_data")
-    pool = ThreadPoolExecutor(max_workers=8)
+    pool = ThreadPoolExecutor(max_workers=8 if tier == "quick" else 6)
     futs = []
     collect_mutants = mutants(v, pool, tier)
-    bfs = QUICK_BFS if tier == "quick" else QUICK_BFS + THOROUGH_BFS
+    bfs = QUICK_BFS if tier == "quick" else THOROUGH_BFS + QUICK_BFS      # the big ones first
     for name, w, to in bfs:
         futs.append(pool.submit(run_bfs, v, g, name, w, to))
-    nsim, num = (2, 600) if tier == "quick" else (8, 8000)
+    nsim, num = (2, 600) if tier == "quick" else (8, 2500)
     for i in range(nsim):
         futs.append(pool.submit(run_sim, v, g, i, seed, num, 900 if tier == "quick" else 3000))
     if tier == "thorough":
@@ -335,6 +335,10 @@ def run(tier, seed):
         "do_xref_cnt+1 of every live object against the spec's ledger",
         "destructor invocation counts (custom blocks on a serial queue drained with dispatch_sync_f)"]
     pool.shutdown(wait=False)
+    if not v.violations:
+        for n, p in files:          # generated vectors are scratch: keep only small ones
+            if os.path.getsize(p) > 20000000:
+                os.remove(p)
     return v.finish()
 
 
